@@ -22,7 +22,7 @@ def c16(c):
         "client side: nbhttp.ClientConn (Timeout, IdleConnTimeout) and websocket.Dialer (DialTimeout, client KeepaliveTime) are covered by the "
         "harness and by the model operations client_do / client_response; two requests in flight on one ClientConn are only probed and "
         "reported (Extra probe_pipelined_requests), C16 does not say which deadline applies to the second request",
-        "UDP connections, conn_std.go (Windows), TLS and nbhttp.Client's connection pool are not covered",
+        "accepted Unix connections (only AddConn'ed ones), conn_std.go (Windows), TLS and nbhttp.Client's connection pool are not covered",
     ]
     c.harness("deadline", ["-n", n(c, 300, 5000)], overlay=True, model=MODEL, timeout=3000)
     c.finish()
@@ -39,14 +39,14 @@ MANIFEST = {
              "timer callbacks) with a logical clock; the Go runtime is part of the environment (Tick / Fire only when due / Run). Theorems in C16.v, for ALL "
              "histories: c16_never_early (a timeout close carries a deadline <= the close time that was in force when it fired), c16_clear, c16_autoclear, "
              "c16_backlog_keeps, c16_no_stale (nothing changes after the close), c16_ws_disabled, c16_client_response_clears; for the eager runtime: c16_fires, c16_fires_exact, c16_renew, "
-             "c16_keepalive; c16_eager_is_primitive ties the two layers. Every run: 300 connection histories (30 named scenarios + random; every third on a connection "
-             "dialed with DialAsyncTimeout), 60 nbhttp keep-alive, 60 WebSocket, 60 websocket.Dialer (DialTimeout / client keep-alive 0 and >0; silent, pinged, receiving, sending) "
+             "c16_keepalive; c16_eager_is_primitive ties the two layers. Every run: 300 connection histories (30 named scenarios + random) rotating over the transports tcp accepted / DialAsyncTimeout / DialAsync / AddConn, "
+             "unix AddConn, udp DialUDP+AddConn / DialAsync(udp) / per-peer server session, with and without traffic drained to EAGAIN before the first deadline; the close error must be the exact timeout error value, 60 nbhttp keep-alive, 60 WebSocket, 60 websocket.Dialer (DialTimeout / client keep-alive 0 and >0; silent, pinged, receiving, sending) "
              "and 60 nbhttp.ClientConn histories (Timeout / IdleConnTimeout 0 and >0; answered requests, idle periods, a request never answered; the close of the underlying "
              "connection is observed through the client engine's OnClose) on a 80 ms grid against real engines; the model must predict closed?/armed timers/backlog/Write result after every "
              "operation and the cause and logical time T of the close with T <= observed < T + margin; the oracle applies the property's interval rules "
              "(never early: exact; on time: margin) to the observed history without the model. Problems are re-run up to 4 times with doubled grid and margin.",
         note="Partial: lateness of real timers is bounded only by the harness margin (runtime's business). Trusted: Coq kernel, extraction, OCaml driver, Go harness, "
-             "overlay accessor, the three assumptions about time.Timer listed in the evidence. Not covered: UDP, conn_std.go, TLS, the connection pool of nbhttp.Client; pipelined client requests are probed and reported only.",
+             "overlay accessor, the three assumptions about time.Timer listed in the evidence. Not covered: accepted Unix connections, conn_std.go, TLS, the connection pool of nbhttp.Client; pipelined client requests are probed and reported only.",
         design="4/C16, 7"),
 }
 
